@@ -5,7 +5,7 @@
 # `git -C /repo worktree remove --force /tmp/confirm` when done).
 set -u
 src=$1; pid=$2; k=$3
-W=/tmp/confirm
+W=${CONFIRM_W:-/tmp/confirm}
 dest=/verif/seeded/$pid-$k
 if [ ! -d "$W" ]; then git -C /repo worktree add -q "$W" HEAD || exit 2; fi
 cd "$W" || exit 2
@@ -19,9 +19,9 @@ if [ -f "$src/demo.sh" ]; then
     demo=demo.sh
     # the seeding agents hard-coded their own worktree path; run a copy pointed at this worktree
     sed -e "s|/tmp/seed_$pid|$W|g" -e "s|/tmp/seedB_$pid|$W|g" -e "s|/tmp/seedC_$pid|$W|g" -e "s|/tmp/seedD_$pid|$W|g" -e "s|/tmp/seedE_$pid|$W|g" -e "s|/tmp/seedF_$pid|$W|g" -e "s|/tmp/seedG_$pid|$W|g" "$src/demo.sh" > "$src/.confirm_demo.sh"
-    sh "$src/.confirm_demo.sh" "$W" >"/tmp/confirm_with.out" 2>&1; demo_with=$?
+    sh "$src/.confirm_demo.sh" "$W" >"$W.with.out" 2>&1; demo_with=$?
     git checkout -q -- .
-    sh "$src/.confirm_demo.sh" "$W" >"/tmp/confirm_without.out" 2>&1; demo_without=$?
+    sh "$src/.confirm_demo.sh" "$W" >"$W.without.out" 2>&1; demo_without=$?
 fi
 if [ "$demo" = none ] && [ -f "$src/demo_test.rs" ]; then
     # integration-test style demonstration: the header names the file to create and the test to run
@@ -30,10 +30,10 @@ if [ "$demo" = none ] && [ -f "$src/demo_test.rs" ]; then
         demo=demo_test.rs
         crate=${rel%%/*}; tname=$(basename "$rel" .rs)
         mkdir -p "$(dirname "$W/$rel")"; cp "$src/demo_test.rs" "$W/$rel"
-        cargo test -p "$crate" --offline --test "$tname" >/tmp/confirm_with.out 2>&1; demo_with=$?
+        cargo test -p "$crate" --offline --test "$tname" >$W.with.out 2>&1; demo_with=$?
         git checkout -q -- .
         mkdir -p "$(dirname "$W/$rel")"; cp "$src/demo_test.rs" "$W/$rel"
-        cargo test -p "$crate" --offline --test "$tname" >/tmp/confirm_without.out 2>&1; demo_without=$?
+        cargo test -p "$crate" --offline --test "$tname" >$W.without.out 2>&1; demo_without=$?
         rm -f "$W/$rel"; rmdir "$(dirname "$W/$rel")" 2>/dev/null
     fi
 fi
